@@ -350,3 +350,66 @@ def make_subset(cfg_in):
                 'tags': ['pos=%d' % len(res['PositionFilter'])], 'sample': None}
 
     return h
+
+
+def make_t1(cfg_in):
+    """T1: the real gen_token_ordering_for_tables / order_using_token_ordering on symbolic tables:
+    the rank map is injective, covers every token of both tables (no token is dropped when a row is
+    ordered), and an ordered row is strictly increasing with as many entries as the row has distinct
+    tokens.  Discharges the arbitrary-order stub of H-CORE."""
+    cfg = dict(nl=2, nr=2, k=2, kmin=0)
+    cfg.update(cfg_in)
+
+    def h(c):
+        Lt = scenario.build_table(c, 'L', cfg['nl'], cfg['k'], cfg['kmin'], False, False, False)
+        Rt = scenario.build_table(c, 'R', cfg['nr'], cfg['k'], cfg['kmin'], False, False, False)
+        tok = symdata.AbsTok(return_set=True)
+        to = repo.mod('utils.token_ordering')
+        s = dict(entry='token_ordering', measure='-', L=scenario.table_dict(Lt), R=scenario.table_dict(Rt))
+
+        def detail(msg):
+            def mk(mdl):
+                return {'prop': 'C01', 'clause': 'token-ordering', 'msg': msg, 'harness': 'h_t1',
+                        'site': 'utils.token_ordering', 'scenario': scenario.concretize_scenario(s, mdl)}
+            return mk
+        with repo.patched(base_bindings()):
+            ordering = to.gen_token_ordering_for_tables([list(Lt.rows), list(Rt.rows)], [1, 1], tok)
+            items = list(ordering.items())
+            for i in range(len(items)):
+                for j in range(i + 1, len(items)):
+                    if items[i][1] == items[j][1]:
+                        raise Violation('T1: two tokens share rank %r' % (items[i][1],), detail('rank map not injective'))
+            for r in list(Lt.rows) + list(Rt.rows):
+                toks = tok.tokenize(r[1])
+                ordered = to.order_using_token_ordering(toks, ordering)
+                if len(ordered) != len(toks):
+                    raise Violation('T1: ordering a row of %d tokens gives %d ranks (a token was dropped)' % (
+                        len(toks), len(ordered)), detail('token dropped by order_using_token_ordering'))
+                for a, b in zip(ordered, ordered[1:]):
+                    if not (a < b):
+                        raise Violation('T1: ordered row not strictly increasing', detail('ordered row not increasing'))
+            # frequency first, then token order
+            freq = {}
+            for r in list(Lt.rows) + list(Rt.rows):
+                for t in tok.tokenize(r[1]):
+                    hit = None
+                    for k_ in freq:
+                        if k_ == t:
+                            hit = k_
+                            break
+                    if hit is None:
+                        freq[t] = 1
+                    else:
+                        freq[hit] += 1
+            for (ta, ra) in items:
+                for (tb, rb) in items:
+                    if ta is tb:
+                        continue
+                    fa = [v for k_, v in freq.items() if k_ == ta][0]
+                    fb = [v for k_, v in freq.items() if k_ == tb][0]
+                    if fa < fb or (fa == fb and ta < tb):
+                        if not (ra < rb):
+                            raise Violation('T1: rank order is not (frequency, token) order', detail('rank order wrong'))
+        return {'nontrivial': len(items) > 1, 'tags': ['tokens=%d' % len(items)], 'sample': None}
+
+    return h
